@@ -1048,11 +1048,19 @@ def expr_fn(
             fn = fns.get(tok)
             if fn is None:
                 break
+            op = tok
             tok = get_token()
             ret2 = parser(tok)
             if isinstance(ret2, str):
                 return ret2
-            ret = fn(ret, ret2)
+            try:
+                ret = fn(ret, ret2)
+            except (ArithmeticError, ValueError, TypeError):
+                # overflow, domain errors, bad operand types
+                return expr_error(op)
+            if isinstance(ret, str):
+                # in-band error from the operator (e.g. divide by zero)
+                return ret
         unget_token(tok)
         return ret
 
@@ -1077,11 +1085,16 @@ def expr_fn(
         fn = unary_fns.get(tok)  # type: ignore[arg-type]
         if fn is None:
             return parse_binary_e(tok)
+        op = tok
         tok = get_token()
         ret = parse_unary_fn(tok)
         if isinstance(ret, str):
             return ret
-        return fn(ret)
+        try:
+            return fn(ret)
+        except (ArithmeticError, ValueError, TypeError):
+            # overflow and domain errors (ln 0, acos 2, exp 1000, ...)
+            return expr_error(op)
 
     def parse_binary_pow(tok: Optional[str]) -> Union[str, int, float]:
         return generic_binary(tok, parse_unary_fn, binary_pow_fns)
@@ -1112,7 +1125,7 @@ def expr_fn(
     if isinstance(ret, str):
         return ret
     if isinstance(ret, float):
-        if ret == math.floor(ret):
+        if ret.is_integer():  # False for inf and nan
             return str(int(ret))
     return str(ret)
 
